@@ -4,6 +4,10 @@ import ParryModel.C08.RefitLemmas
 import ParryModel.C08.TrackedLemmas
 import ParryModel.C08.LinkLemmas
 import ParryModel.C08.TermLemmas
+import ParryModel.C08.Theorems2
+import ParryModel.C08.Theorems3
+import ParryModel.C08.Theorems4
+import ParryModel.C08.Theorems5
 /-!
 # C08 property theorems: the QBVH stays valid under any history
 
